@@ -2,6 +2,7 @@ package graphicsstate
 
 import (
 	"fmt"
+	"math"
 
 	"github.com/tsawler/tabula/model"
 )
@@ -303,11 +304,19 @@ func (gs *GraphicsState) GetEffectiveFontSize() float64 {
 	baseFontSize := gs.Text.FontSize
 
 	// The text matrix is [a b c d e f]
-	// For vertical scaling (typical font size), we use element d (index 3)
-	// For horizontal scaling, we use element a (index 0)
-	// We take the maximum to handle both cases
-	verticalScale := abs(gs.Text.TextMatrix[3])   // d component
-	horizontalScale := abs(gs.Text.TextMatrix[0]) // a component
+	// We take the maximum of the vertical scaling (typical font size) and the
+	// horizontal scaling to handle both cases.
+	// For a rotated text matrix a and d alone say nothing (a quarter turn has
+	// a = d = 0): the horizontal scale is the length of the baseline vector
+	// (a, b) and the vertical scale the extent perpendicular to it. For an
+	// unrotated matrix these are |a| and |d|; a shear (synthetic italics) does
+	// not change them.
+	tm := gs.Text.TextMatrix
+	horizontalScale := math.Sqrt(tm[0]*tm[0] + tm[1]*tm[1])
+	verticalScale := math.Sqrt(tm[2]*tm[2] + tm[3]*tm[3])
+	if horizontalScale > 0 {
+		verticalScale = abs(tm[0]*tm[3]-tm[1]*tm[2]) / horizontalScale
+	}
 
 	// Use the larger of the two scales
 	scale := verticalScale
